@@ -15,6 +15,7 @@ import importlib
 import inspect
 import json
 import os
+import threading
 import random
 import re
 import shutil
@@ -258,14 +259,47 @@ def write_replay(pid, payload):
     return os.path.relpath(path, VERIF)
 
 
+class _Hang(BaseException):
+    """raised by SIGALRM when one operation does not return in time"""
+
+
+OP_TIMEOUT_S = int(os.environ.get("OP_TIMEOUT_S", "180"))
+HANG = "HANG"
+
+
+def _on_alarm(signum, frame):
+    raise _Hang()
+
+
 def safe_impl(prop, op):
+    """one operation against the real code; an operation that does not return within OP_TIMEOUT_S seconds (a
+    spinning or waiting implementation) is cut short and reported as a violation with that operation as input"""
+    import signal
+    use_alarm = hasattr(signal, "SIGALRM") and threading.current_thread() is threading.main_thread()
+    if use_alarm:
+        old = signal.signal(signal.SIGALRM, _on_alarm)
+        signal.alarm(OP_TIMEOUT_S)
     try:
         return prop.run_impl(op)
+    except _Hang:
+        return HANG
     except Exception as e:  # harness-level surprise: make it visible as an output
         return f"HARNESS-RAISED {type(e).__name__}: {e}"
+    finally:
+        if use_alarm:
+            signal.alarm(0)
+            signal.signal(signal.SIGALRM, old)
+
+
+def safe_signature(prop, op, what):
+    if what.startswith("hang:"):
+        return "hang"
+    return prop.signature(op, what)
 
 
 def safe_oracle(prop, op, out):
+    if out == HANG:
+        return f"hang: the implementation did not return within {OP_TIMEOUT_S} s on this operation"
     try:
         return prop.oracle(op, out)
     except Exception as e:
@@ -275,12 +309,17 @@ def safe_oracle(prop, op, out):
 def run_ops(prop, ops):
     """Real code + oracle on a list of ops.  Returns (impl_outs, violations[(op, out, what)])."""
     outs, viols = [], []
+    hangs = 0
     for op in ops:
         o = safe_impl(prop, op)
         outs.append(o)
         w = safe_oracle(prop, op, o)
         if w:
             viols.append((op, o, w))
+        if o == HANG:
+            hangs += 1
+            if hangs >= 3:
+                break          # enough evidence; do not spend OP_TIMEOUT_S on every further operation
     return outs, viols
 
 
@@ -292,7 +331,7 @@ def shrink(prop, op, what):
         for cand in prop.shrink_candidates(cur):
             o = safe_impl(prop, cand)
             w = safe_oracle(prop, cand, o)
-            if w and prop.signature(cand, w) == prop.signature(cur, what):
+            if w and safe_signature(prop, cand, w) == safe_signature(prop, cur, what):
                 cur = cand
                 break
         else:
@@ -384,6 +423,9 @@ def check(pid, tier, seed, replay=None):
             uniq.append(o)
     ops = uniq
     impl_outs, viols = run_ops(prop, ops)
+    if len(impl_outs) < len(ops):
+        notes.append(f"stopped after {len(impl_outs)} of {len(ops)} operations: the implementation hung repeatedly")
+        ops = ops[:len(impl_outs)]
     mismatches = []
     model_outs = [None] * len(ops)
     if model_ok:
@@ -411,7 +453,7 @@ def check(pid, tier, seed, replay=None):
     known_sigs = {k["signature"]: k for k in known}
     new_viols, known_hit = {}, {}
     for op, o, w in viols:
-        sig = prop.signature(op, w)
+        sig = safe_signature(prop, op, w)
         if sig in known_sigs:
             known_hit.setdefault(sig, (op, o, w))
         else:
@@ -444,7 +486,7 @@ def check(pid, tier, seed, replay=None):
             out_o = safe_impl(prop, o)
             w = safe_oracle(prop, o, out_o)
             if w:
-                sig = prop.signature(o, w)
+                sig = safe_signature(prop, o, w)
                 if sig in known_sigs:
                     known_hit.setdefault(sig, (o, out_o, w))
                 else:
